@@ -106,4 +106,35 @@ def resumed (var : Variant) (idOf : Nat → Id) (app : Nat → Val) (s0 : FStore
 def uninterrupted (var : Variant) (idOf : Nat → Id) (app : Nat → Val) (s0 : FStore) (inputs : List Nat) : FStore :=
   exec s0 (runOps var idOf app s0 inputs)
 
+/-! ### the write list of `DataStoreDirectory._write` as the translator reads it off the source
+(`translator/c19_atomic2lean.py` → `Gen.C19Program.storeWrites`) -/
+
+/-- which file of the store a `with …(path) as out: out.write(…)` statement of `_write` writes -/
+inductive StoreFile where
+  | md5 | record | log
+  deriving DecidableEq, Repr
+
+/-- by which route: `atomic_write(path)` (own temp dir, one rename), `atomic_write(path, tmpdir=…)` (the staged file
+    lives in a directory chosen by the store — if that is a directory the store lists, a kill leaves a bogus member:
+    outside this model), or a plain `open_` (created empty, then filled) -/
+inductive Route where
+  | atomicOwn | atomicTmpdir | plain
+  deriving DecidableEq, Repr
+
+/-- the file operations of one (file, route) entry for result `v` (`none`: outside the model) -/
+def opsOfWrite (v : Val) : StoreFile × Route → Option (List COp)
+  | (.log, _) => some []            -- the log is written once per run, not per record
+  | (_, .atomicTmpdir) => none
+  | (.md5, .atomicOwn) => some [.putMd5 v]
+  | (.md5, .plain) => some [.createMd5, .fillMd5 v]
+  | (.record, .atomicOwn) => some [if v.isOk then .putRec v else .putNC v]
+  | (.record, .plain) => some (if v.isOk then [.createRec, .fillRec v] else [.createNC, .fillNC v])
+
+def blockOfWrites (v : Val) : List (StoreFile × Route) → Option (List COp)
+  | [] => some []
+  | w :: ws =>
+    match opsOfWrite v w, blockOfWrites v ws with
+    | some a, some b => some (a ++ b)
+    | _, _ => none
+
 end CogentModel.StoreWrite
